@@ -128,11 +128,12 @@ inductive Prog : List Tk → Prop
 def wfAtom (a : Atom) : Bool := a.name != ""
 def wfAtomPos (a : Atom) : Bool := a.name != "" && !a.negated
 
+/- a one-operand operation (the `in absolute value` wrapper, whose `|` is never printed — finding F19) prints as its operand -/
 mutual
   def wfTerm : Elem → Bool
     | .val _ => true
     | .atom a => wfAtomPos a
-    | .op .plain sym args => isArithSym sym && !args.isEmpty && wfTermL args
+    | .op .plain sym args => (isArithSym sym || args.length == 1) && !args.isEmpty && wfTermL args
     | .op .angle sym args => isArithSym sym && !args.isEmpty && wfTermL args
     | _ => false
   def wfTermL : List Elem → Bool
